@@ -15,6 +15,7 @@ R3.13 a field the Meta map does not list has the same wire key in both direction
 R3.12 union variants are tried in declared order (a document of the first variant is not captured by a later, laxer one)          [= R14.9]
 R3.14 the resolver's by-name fallback never merges kinds: an inline number property named like an integer schema stays a number  [= R2.11]
 R3.15 the union decoder reads the discriminator from the type as given and keeps Annotated members whole                          [= R14.11]
+R3.16 an object schema without properties is rendered as the data-preserving wrapper unless additionalProperties is false (predicate evaluated)  [finding]
 R3.11 wire keys / discriminator values are emitted as literals that evaluate to the spec's own string (non-BMP characters survive)  [= R15.5]
 R3.8  nullability written as a type array is read from the document node at every sibling site (never from IRSchema.type, a string)
 R3.5  recursion over field types: every field of every dataclass gets its nested types registered (no skip)
@@ -202,6 +203,7 @@ def run(repo: Repo, rep: Report, tier: str) -> None:
     from rules.c14 import rule_metadata_from_the_given_type as _rmg
 
     _rmg(repo, rep, "R3.15")
+    rule_free_form_object_keeps_content(repo, rep, "R3.16")
     _reuse39(repo, rep, "c15", {"R15.5": "R3.11"}, only=lambda subj: "python_construct_renderer" in subj)
     # ---------------------------------------------------------------- R3.8 type-array nullability is read from the document node
     # `type: [string, "null"]` lives in the raw node; IRSchema.type is a plain string (ir.py), so a test `isinstance(<ir>.type, list)` can never
@@ -232,3 +234,51 @@ def run(repo: Repo, rep: Report, tier: str) -> None:
     if good and not bad:
         rep.ok("R3.8", f"{sp.relpath} nullable type arrays", f"all {good} `isinstance(<node>['type'], list)` tests read the document node", sp.relpath)
     rep.require(good + bad >= 2, f"R3.8: only {good + bad} type-array nullability tests found in schema_parser (floor 2)")
+
+
+# ------------------------------------------------------------------------------------------------ R3.16 a free-form object keeps its content
+def rule_free_form_object_keeps_content(repo: Repo, rep, rule: str = "R3.16") -> None:
+    """`type: object` without `properties` and without `additionalProperties` is JSON Schema for "any object" (an absent
+    additionalProperties means true).  The dataclass generator renders such a schema either as the data-preserving wrapper class or as a
+    dataclass without fields - and cattrs ignores unknown keys, so the field-less dataclass silently drops every key of the value.  The
+    wrapper decision (`_is_arbitrary_json_object`) is evaluated over additional_properties in {None, True, False, <schema>} for an object
+    schema without properties: it must choose the wrapper for everything but an explicit False."""
+    from sa.feval import Unknown, evaluate
+
+    gen = repo.module("visit.model.dataclass_generator")
+    cls = gen.classes.get("DataclassGenerator")
+    fn = cls.methods.get("_is_arbitrary_json_object") if cls else None
+    if fn is None:
+        raise AnalysisError(f"{rule}: anchor vanished: DataclassGenerator._is_arbitrary_json_object")
+    rets = [r for r in own_nodes(fn.node) if isinstance(r, ast.Return) and r.value is not None]
+    if len(rets) != 1:
+        raise AnalysisError(f"{rule}: _is_arbitrary_json_object no longer consists of one returned predicate ({len(rets)} returns) - not modelled")
+    p = [a for a in fn.params if a not in ("self", "cls")][0]
+    L = Locals(fn.node)
+    pred = L.inline(rets[0].value, stop=tuple(L.params))
+
+    class _Schema:  # stands for "some IRSchema": isinstance(x, IRSchema) is the only thing asked of it
+        pass
+
+    sub = f"{gen.relpath}:DataclassGenerator._is_arbitrary_json_object"
+    outcomes = {}
+    try:
+        for label, ap in (("absent", None), ("true", True), ("false", False), ("schema", "SCHEMA")):
+            env = {f"{p}.type": "object", f"{p}.properties": {}, f"{p}.additional_properties": ap, f"{p}.all_of": None, f"{p}.any_of": None, f"{p}.one_of": None,
+                   f"{p}.enum": None, f"{p}._is_circular_ref": False, f"{p}._is_self_referential_stub": False, f"{p}._from_unresolved_ref": False,
+                   f"{p}._max_depth_exceeded_marker": False}
+            # isinstance(<p>.additional_properties, IRSchema) is true exactly for the "schema" case
+            pr = ast.parse(ast.unparse(pred).replace(f"isinstance({p}.additional_properties, IRSchema)", "True" if ap == "SCHEMA" else "False"), mode="eval").body
+            outcomes[label] = bool(evaluate(pr, env))
+    except Unknown as e:
+        rep.error(f"{rule}: cannot evaluate the wrapper predicate `{norm(pred)[:80]}` ({e})")
+        return
+    want = {"absent": True, "true": True, "false": False, "schema": True}
+    wrong = [k for k in want if outcomes.get(k) != want[k]]
+    if not wrong:
+        rep.ok(rule, sub, f"wrapper chosen for additionalProperties absent / true / <schema>, plain dataclass for false: {outcomes}", fn.loc(rets[0]))
+    else:
+        rep.violation(rule, sub, f"{fn.fq}|free-form-object-as-empty-dataclass|{','.join(wrong)}",
+                      f"for an object schema without properties the wrapper is {'not ' if not outcomes.get(wrong[0]) else ''}chosen when additionalProperties is {wrong[0]} "
+                      f"({outcomes}): `metadata: {{type: object}}` becomes a dataclass without fields, structuring accepts any object for it and drops every key - "
+                      "a conforming document comes back with `{}` in its place", fn.loc(rets[0]))
